@@ -1,6 +1,7 @@
 package consul
 
 import (
+	"bytes"
 	"fmt"
 	"log"
 	"net"
@@ -9,6 +10,7 @@ import (
 	"strconv"
 	"strings"
 
+	"github.com/fabiolb/fabio/route"
 	"github.com/hashicorp/consul/api"
 )
 
@@ -93,17 +95,41 @@ func (r routecmd) build() []string {
 			if weight != "" {
 				cfg += " weight " + weight
 			}
+			// the route parser reads the text between the quotes verbatim
 			if len(svctags) > 0 {
-				cfg += " tags " + strconv.Quote(strings.Join(svctags, ","))
+				cfg += " tags \"" + strings.Join(svctags, ",") + "\""
 			}
 			if len(ropts) > 0 {
-				cfg += " opts " + strconv.Quote(strings.Join(ropts, " "))
+				cfg += " opts \"" + strings.Join(ropts, " ") + "\""
+			}
+
+			// A registration which cannot be expressed as a route command is
+			// dropped on its own since a single command the parser rejects
+			// would otherwise fail every subsequent update of the routing table.
+			if !r.valid(cfg, name, route, dst) {
+				log.Printf("[WARN] consul: Skipping service %q with tag %q since it cannot be expressed as route command %q", name, tag, cfg)
+				continue
 			}
 
 			config = append(config, cfg)
 		}
 	}
 	return config
+}
+
+// valid returns true if the route parser accepts the generated command
+// as a single 'route add' for the given service, source and destination.
+func (r routecmd) valid(cfg, name, src, dst string) bool {
+	// a command is a single line
+	if strings.Contains(cfg, "\n") {
+		return false
+	}
+	defs, err := route.Parse(bytes.NewBufferString(cfg))
+	if err != nil || len(defs) != 1 {
+		return false
+	}
+	d := defs[0]
+	return d.Cmd == route.RouteAddCmd && d.Service == name && d.Src == src && d.Dst == dst
 }
 
 // parseURLPrefixTag expects an input in the form of 'tag-host/path[ opts]'
